@@ -66,9 +66,9 @@ def _tlc_cases(tier, seed, v):
     to = 3000 if tier == "quick" else 9000
     runs = CONSTS[tier]
     w = max(4, 14 // len(runs))
-    jobs = [("cov", lambda: core.run_tlc(SPEC / "CompSys.tla", _cfg(d / "cov.cfg", COV, 1), workers=2, timeout=to, coverage=True))]
+    jobs = [("cov", lambda: core.run_tlc(SPEC / "CompSys.tla", _cfg(d / "cov.cfg", COV, 1), workers=2, timeout=to, coverage=True, heap="2g"))]
     for i, c in enumerate(runs):
-        jobs.append((f"run{i}", (lambda c=c, i=i: core.run_tlc(SPEC / "CompSys.tla", _cfg(d / f"run{i}.cfg", c, seed), workers=w, timeout=to, coverage=False))))
+        jobs.append((f"run{i}", (lambda c=c, i=i: core.run_tlc(SPEC / "CompSys.tla", _cfg(d / f"run{i}.cfg", c, seed), workers=w, timeout=to, coverage=False, heap="4g"))))
     ths = [threading.Thread(target=run, args=j) for j in jobs]
     for t in ths:
         t.start()
